@@ -75,11 +75,31 @@ def run_config(cfg):
 
 
 def refid(gene, m):
-    """RefSeq notation of a catalogued variant (build independent)."""
+    """RefSeq notation of a loaded variant, derived from its genome key through the
+    coordinate maps (not from the notation the loader recorded): the evidence of a site
+    is transported between builds by where the bases actually are."""
     if m.op == "_":
         raise KeyError
-    info = gene.mutations[m.pos, m.op]
-    return (info[3], info[4])
+    from aldy.common import rev_comp
+
+    op, pos = m.op, m.pos
+    c2r = gene.chr_to_ref
+    try:
+        if gene.strand > 0:
+            return (c2r[pos], op)
+        if ">" in op:
+            l, r = op.split(">")
+            return (c2r[pos + len(l) - 1], f"{rev_comp(l)}>{rev_comp(r)}")
+        if op.startswith("ins"):
+            return (c2r[pos + 1], "ins" + rev_comp(op[3:]))
+        if "ins" in op:
+            d, i = op[3:].split("ins")
+            return (c2r[pos + len(d) - 1], f"del{rev_comp(d)}ins{rev_comp(i)}")
+        d = op[3:]
+        return (c2r[pos + len(d) - 1], "del" + rev_comp(d))
+    except KeyError:
+        info = gene.mutations[m.pos, m.op]
+        return (info[3], info[4])
 
 
 def site_id(gene, pos):
@@ -140,7 +160,8 @@ def canon(gene, raw):
 
     # variables mention variants either as '<pos+1>.<op>' (str(Mutation)) or '<pos>_<op>'
     for (pos, op), info in gene.mutations.items():
-        rid = f"<{info[3]}:{info[4]}>"
+        ri = refid(gene, Mutation(pos, op))
+        rid = f"<{ri[0]}:{ri[1]}>"
         raw = raw.replace(f"{pos + 1}.{op}", rid).replace(f"_{pos}_{op}", f"_{rid}")
     # reference-site variables E_<pos>_REF
     m = re.match(r"^(ABS_)?E_(\d+)_REF$", raw)
@@ -289,6 +310,9 @@ def finish(eng, res, cfg, genes, models, xs, base, tag, kind):
     ob(res, f"{tag}: the same support patterns are feasible in both builds",
        "holds" if p19 == p38 else "sat", n=len(p19))
     eng.pc = list(base)
+    if p19 != p38:
+        violation(eng, res, cfg, xs, [], "a variant's evidence reaches the stage in one "
+                  "build only (support patterns differ)", kind)
     for pat in sorted(p19 & p38, key=str):
         m19, m38 = models["hg19"][pat], models["hg38"][pat]
         eng.pc = list(base) + [xs[i] > 0 if i in pat else xs[i] <= 0 for i in xs]
@@ -440,7 +464,8 @@ def replay(o):
         counts = {}
         byid = {}
         for (pos, op), info in gene.mutations.items():
-            byid[f"{info[3]}|{info[4]}"] = Mutation(pos, op)
+            ri = refid(gene, Mutation(pos, op))
+            byid[f"{ri[0]}|{ri[1]}"] = Mutation(pos, op)
         bypos = collections.defaultdict(int)
         sites = set()
         for k, v in o["counts"].items():
